@@ -122,6 +122,18 @@ func (w *world) idx(s string) int {
 	return -1
 }
 
+// sameTicks compares two vectors of possibly different length (schema growth
+// appends states at tick 0).
+func sameTicks(a, b am.Time) bool {
+	n := max(len(a), len(b))
+	for i := 0; i < n; i++ {
+		if tickOf(a, i) != tickOf(b, i) {
+			return false
+		}
+	}
+	return true
+}
+
 func tickOf(t am.Time, i int) uint64 {
 	if i < 0 || i >= len(t) {
 		return 0
@@ -132,7 +144,13 @@ func tickOf(t am.Time, i int) uint64 {
 // absorb appends the transitions recorded since the last call to the chain.
 func (w *world) absorb() {
 	txs := w.mc.Tr.Snapshot()
+	n := w.seenTx
 	for _, tx := range txs[w.seenTx:] {
+		if !strings.HasSuffix(tx.Callbacks, "E") {
+			// still in flight: absorb it later
+			break
+		}
+		n++
 		w.chain = append(w.chain, tx.After)
 		w.acc = append(w.acc, tx.Accepted && !tx.IsCheck)
 		// activated states (State event): flipped to active or Multi re-entry
@@ -147,7 +165,7 @@ func (w *world) absorb() {
 		w.entered = append(w.entered, ent)
 		w.argsOf = append(w.argsOf, tx.Args)
 	}
-	w.seenTx = len(txs)
+	w.seenTx = n
 }
 
 func (w *world) cur() int { return len(w.chain) - 1 }
@@ -250,9 +268,15 @@ func (w *world) verdict(s *sub) (int, string) {
 	}
 	if s.HasCtx && s.ctxDoneAt >= 0 {
 		for i := s.ctxDoneAt + 1; i < len(w.chain); i++ {
-			if w.acc[i] {
-				return 1, "ctx ended and an accepted transition ran since"
+			if !w.acc[i] {
+				continue
 			}
+			// WhenArgs bindings are only visited when a handler event fires,
+			// i.e. when the transition changed some state
+			if s.Kind == "whenargs" && sameTicks(w.chain[i], w.chain[i-1]) {
+				continue
+			}
+			return 1, "ctx ended and an accepted transition ran since"
 		}
 		return 0, ""
 	}
